@@ -1,4 +1,5 @@
 import JugModel.Lemmas.ExecLocal
+import JugModel.Model.ExecScan
 import JugModel.Generated.WorkerPaths
 /-!
 # Bridge: the real worker loop keeps the worker-local guards of the execution model
@@ -15,6 +16,12 @@ open Jug.Exec
 
 set_option maxRecDepth 100000 in
 theorem worker_conforms : ∀ p ∈ Generated.Worker.paths, lconforms p = true := by decide +kernel
+
+/-- the real loop returns "no failures" only after it has accounted for every task of its list: seen its result, found it
+    locked by another worker, or - since it last finished a task - seen one of its dependencies without a result
+    (the hypothesis `scanRun` of `C01.exec_complete`, checked here on every extracted path) -/
+theorem worker_scans_all : ∀ p ∈ Generated.Worker.paths, lscanOK p = true := by
+  set_option maxRecDepth 100000 in decide +kernel
 
 /-- non-vacuity: the paths include complete executions, failures and stop requests -/
 example : 500 < Generated.Worker.paths.length := by decide +kernel
